@@ -16,7 +16,10 @@ def run_auth(ctx, mode):
     ctx.timings["auth-" + mode] = round(dt, 2)
     ctx.correspondence("auth/%s: real router + handlers + openid client + fake provider vs Model/Auth.v (symbolic request, cookie and back-channel terms)" % mode,
                        pre + ".in", pre + ".impl")
-    obs = [json.loads(l) for l in open(pre + ".obs") if l.strip()]
+    # (the driver interleaves "logscan" records - consumed by C18 - with the one-per-case observations)
+    obs = [o for o in (json.loads(l) for l in open(pre + ".obs") if l.strip()) if o.get("kind") != "logscan"]
     ins = [l.rstrip("\n") for l in open(pre + ".in")]
     impl = [l.rstrip("\n") for l in open(pre + ".impl")]
+    if not (len(obs) == len(ins) == len(impl)):
+        raise RuntimeError("auth driver: %d observations, %d inputs, %d outputs" % (len(obs), len(ins), len(impl)))
     return obs, ins, impl
